@@ -474,6 +474,22 @@ def c_withifexp(a):
         ev(('body', a))
     return a
 
+class Q:
+    def __init__(self, a):
+        self.size = (a, a + 1)
+        self.inner = self
+        self.count = 0
+
+    def bump(self):
+        self.count += 1
+        return self.count
+
+def c_alias(q, a):
+    size = q.inner.size            # never assigned outside a constructor: the alias is the chain
+    n = q.count                    # assigned in bump(): the alias keeps the old value
+    q.bump()
+    return size[0] + a, size[1], n, q.count
+
 def c_meth(v, a):
     return K(v).caller_m(a)
 
@@ -481,10 +497,12 @@ def c_set(v, a):
     return K(v).caller_set(a)
 '''
 
-KNOWN_PREFIX = ('c_', 'ev', 'Err', 'CM', 'K.__', 'K.caller')
+KNOWN_PREFIX = ('c_', 'ev', 'Err', 'CM', 'K.__', 'K.caller', 'Q.')
 
 
 def normalised_source():
+    from sa import simplify
+    simplify.MUTABLE_ATTRS = simplify.mutable_attrs_of([SRC])
     tree = ast.parse(SRC)
     known = set()
     for qual, node, cls, _ in inline.function_index(tree):
@@ -496,6 +514,8 @@ def normalised_source():
 
 def run(ns, name, args):
     ns['TRACE'].clear()
+    if name == 'c_alias':
+        args = (ns['Q'](args[1]), args[1])
     try:
         r = ('ok', ns[name](*args))
     except Exception as e:       # noqa
@@ -526,6 +546,7 @@ def main():
         'c_flag1': itertools.product(vals, vals), 'c_flags2': itertools.product(vals, vals), 'c_table': [(v,) for v in vals],
         'c_counter': itertools.product(vals, vals), 'c_counter1': [([],), ([5],), ([5, 6, 7],)], 'c_lambda': itertools.product(vals, vals),
         'c_plain': itertools.product(vals, vals), 'c_withifexp': [(v,) for v in vals],
+        'c_alias': [(None, v) for v in vals],
         'c_rng_swapped': itertools.product(vals, vals), 'c_closure': itertools.product(vals, vals), 'c_try_rest': [(v,) for v in vals], 'c_try_ret': [(v,) for v in vals], 'c_try_norets': [(v,) for v in vals], 'c_rng_self': itertools.product(vals, vals),
     }
     bad = 0
